@@ -2,8 +2,11 @@
 Middlewares and error handlers built from JSON specs (sync and async), their event log, and the reference model
 of the stack semantics stated in C12.
 
-middleware spec : {'kind': 'pass' | 'short' | 'rewrite-request' | 'rewrite-response', 'method'?, 'params'?}
-handler spec    : {'kind': 'identity' | 'annotate' | 'replace'}
+middleware spec : {'kind': 'pass' | 'short' | 'answer-all' | 'swallow' | 'rewrite-request' | 'rewrite-response', 'method'?, 'params'?}
+                  short: answers calls itself, lets notifications end unanswered; answer-all: answers every element itself, notifications
+                  too (an access-control middleware); swallow: returns "no response" for every element, calls too
+handler spec    : {'kind': 'identity' | 'annotate' | 'replace'}  or  {'kind': 'reuse', 'of': j} - the SAME callable as the j-th handler
+                  built so far (an audit hook registered under several keys / twice in one list)
 handler table   : {'generic': [handler...], 'codes': [[code, [handler...]], ...]}
 """
 
@@ -43,8 +46,10 @@ def build_middlewares(specs: List[Dict[str, Any]], ev: Events, is_async: bool, p
         def before(request, context, idx=idx):
             ev.log.append(['mw', idx, 'enter'] + _req_view(request) + [ev.ctx(context)])
 
-        def short(request, idx=idx):
-            return UNSET if request.id is None else pjrpc.Response(id=request.id, result={'short': idx})
+        def short(request, idx=idx, kind=kind):
+            if kind == 'swallow' or (kind == 'short' and request.id is None):
+                return UNSET
+            return pjrpc.Response(id=request.id, result={'short': idx})
 
         def rewritten(request, ms=ms):
             return pjrpc.Request(method=ms['method'], params=copy.deepcopy(ms['params']), id=request.id)
@@ -60,7 +65,7 @@ def build_middlewares(specs: List[Dict[str, Any]], ev: Events, is_async: bool, p
                 before(request, context)
                 for i in range(npoints):
                     await point(f"mw{idx}#{i}")
-                if kind == 'short':
+                if kind in ('short', 'answer-all', 'swallow'):
                     return short(request)
                 if kind == 'rewrite-request':
                     return await handler(rewritten(request), context)
@@ -69,7 +74,7 @@ def build_middlewares(specs: List[Dict[str, Any]], ev: Events, is_async: bool, p
         else:
             def mw(request, context, handler, kind=kind, before=before, short=short, rewritten=rewritten, wrap=wrap):
                 before(request, context)
-                if kind == 'short':
+                if kind in ('short', 'answer-all', 'swallow'):
                     return short(request)
                 if kind == 'rewrite-request':
                     return handler(rewritten(request), context)
@@ -85,8 +90,16 @@ def build_handlers(table: Optional[Dict[str, Any]], ev: Events, is_async: bool, 
         return {}
     out: Dict[Any, List[Any]] = {}
     uid = [0]
+    made: List[Any] = []
 
     def make(key: Any, hs: Dict[str, Any]) -> Any:
+        if hs['kind'] == 'reuse' and made:
+            return made[hs['of'] % len(made)]
+        h = make_new(key, hs if hs['kind'] != 'reuse' else {'kind': 'identity'})
+        made.append(h)
+        return h
+
+    def make_new(key: Any, hs: Dict[str, Any]) -> Any:
         n = uid[0]
         uid[0] += 1
         kind = hs['kind']
@@ -121,23 +134,25 @@ def build_handlers(table: Optional[Dict[str, Any]], ev: Events, is_async: bool, 
 # ---- reference model ----------------------------------------------------------------------------
 
 
-def _model_handlers(table: Optional[Dict[str, Any]]) -> Dict[Any, List[Tuple[int, str]]]:
-    """mirror of build_handlers' numbering"""
-    out: Dict[Any, List[Tuple[int, str]]] = {}
-    n = 0
+def _model_handlers(table: Optional[Dict[str, Any]]) -> Dict[Any, List[Tuple[int, str, Any]]]:
+    """mirror of build_handlers' numbering: (number, kind, key it was first built for)"""
+    out: Dict[Any, List[Tuple[int, str, Any]]] = {}
+    made: List[Tuple[int, str, Any]] = []
     if not table:
         return out
+
+    def make(key: Any, hs: Dict[str, Any]) -> Tuple[int, str, Any]:
+        if hs['kind'] == 'reuse' and made:
+            return made[hs['of'] % len(made)]
+        h = (len(made), hs['kind'] if hs['kind'] != 'reuse' else 'identity', key)
+        made.append(h)
+        return h
+
     if table.get('generic'):
-        out[None] = []
-        for hs in table['generic']:
-            out[None].append((n, hs['kind']))
-            n += 1
+        out[None] = [make(None, hs) for hs in table['generic']]
     for code, hss in table.get('codes', []):
         if hss:
-            out[code] = []
-            for hs in hss:
-                out[code].append((n, hs['kind']))
-                n += 1
+            out[code] = [make(code, hs) for hs in hss]
     return out
 
 
@@ -168,8 +183,7 @@ def expect_stack(text: str, registry: List[Dict[str, Any]], behaviours: Dict[str
             lib = True
         raised_code = err['code']
         chain = list(handlers.get(None, [])) + list(handlers.get(raised_code, []))
-        for n, kind in chain:
-            key = None if (n, kind) in handlers.get(None, []) else raised_code
+        for n, kind, key in chain:
             events.append(['eh', n, key, err['code'], req['method'], req.get('id'), 'sentinel'])
             if kind == 'annotate':
                 err, lib = {'code': err['code'], 'message': f"annot{n}", 'data': {'annot': n}}, False
@@ -188,6 +202,12 @@ def expect_stack(text: str, registry: List[Dict[str, Any]], behaviours: Dict[str
         params = req.get('params', [])
         events.append(['mw', i, 'enter', req['method'], req.get('id'), params, 'sentinel'])
         kind = ms['kind']
+        if kind == 'swallow':
+            classes.append('mw/swallowed-call' if req.get('id') is not None else 'mw/short-circuited')
+            return None
+        if kind == 'answer-all':
+            classes.append('mw/answered-notification' if req.get('id') is None else 'mw/short-circuited')
+            return {'id': req.get('id'), 'result': {'short': i}}
         if kind == 'short':
             classes.append('mw/short-circuited')
             return None if req.get('id') is None else {'id': req['id'], 'result': {'short': i}}
